@@ -49,6 +49,10 @@ mutual
     | obj c kvs =>
       simp only [comparable, Bool.and_eq_true] at hx
       simp only [canon, canonItems_id num kvs hx.2]
+      cases hd : env.dyn c
+      · simp
+      · have h1 : ascKeys env kvs = true := by simpa [objSh, hd, keysOk] using hx.1
+        simp [sortItems_asc kvs h1]
   termination_by structural x
   theorem canonList_id (num : Bool) (xs : List Val) (hx : comparableList env num xs = true) :
       canonList env xs = xs := by
